@@ -49,7 +49,12 @@ func newSymRef(name string) *symRef {
 		view:     primitives.View(env.NondetU64(name + "_view")),
 		hash:     env.NondetU8(name + "_hash"),
 	}
-	r.b = &protocol.BlockRefBuilder{MessageType: r.typ, InstanceId: r.instance, BlockHeight: r.height, View: r.view, BlockHash: primitives.BlockHash{r.hash}}
+	bh := primitives.BlockHash{r.hash}
+	if env.ParamOr("hashlen", 1) == 0 {
+		// boundary: every block-ref of this run carries an EMPTY hash (no block satisfies it)
+		bh, r.hash = primitives.BlockHash{}, 0
+	}
+	r.b = &protocol.BlockRefBuilder{MessageType: r.typ, InstanceId: r.instance, BlockHeight: r.height, View: r.view, BlockHash: bh}
 	r.raw = r.b.Build().Raw()
 	return r
 }
